@@ -33,7 +33,7 @@ def _concretize(ctx):
 def unit(pid, battery_name, args, prefix=(), max_depth=None):
     n, m = args['n'], args['m']
     mode = args.get('kernels', 'contract')
-    harness.set_width_for(n, m)
+    harness.set_width_for(n + args.get('pad', 0), m + args.get('pad', 0))
     harness.set_kernel_mode(mode)
     concepts = harness.load_concepts()
     battery = getattr(B, battery_name)
